@@ -281,9 +281,16 @@ def cells_on_one_trainer(chk, tab, mm, *, variant, rng, T, guards):
     n = 3 if guards else 2
     dyadic = rng.random() < 0.4
     hdrs = []
+    # shared: the cells are the connections of ONE Biclique feeding ONE neuron group (same step time, same postsynaptic
+    # spikes), so the trainer's monitor pool may alias their event monitors - which it must do only where they are
+    # interchangeable (e.g. not between a delayed and an undelayed kernel cell)
+    shared = (not guards) and rng.random() < 0.4
+    dt0 = None
     for j in range(n):
         splus, sminus = rng.choice(SIGNS)
         dt = rng.choice([1.0, 0.5]) if dyadic else rng.choice([1.0, 1.3, 0.7])
+        if shared:
+            dt0 = dt = dt if dt0 is None else dt0
         form = rng.choice(["float", "t0", "mixed", "tsyn"])
         if form == "tsyn" and variant not in KERNEL:
             form = "t0"
@@ -293,6 +300,8 @@ def cells_on_one_trainer(chk, tab, mm, *, variant, rng, T, guards):
             hp["delayed"] = bool(rng.random() < 0.5)
         hdrs.append({"rule": variant, "hp": hp, "conn": {"kind": "dense", "M": 1, "N": 1}, "dt": dt, "B": 1,
                      "reduction": rng.choice(["sum", "mean"]), "dmax": None if nodelay else 2, "delay": 0})
+        if shared:
+            hdrs[-1]["shared"] = True
 
     def delay_of(j, t):
         if hdrs[j]["dmax"] is None:
